@@ -13,6 +13,7 @@ import (
 	"strings"
 	"time"
 	"unicode"
+	"unicode/utf8"
 
 	"github.com/osteele/liquid/values"
 	"github.com/osteele/tuesday"
@@ -177,10 +178,12 @@ func AddStandardFilters(fd FilterDictionary) { //nolint: gocyclo
 		return s + suffix
 	})
 	fd.AddFilter("capitalize", func(s, suffix string) string {
-		if len(s) == 0 {
+		// upper-case the first character, not the first byte
+		r, n := utf8.DecodeRuneInString(s)
+		if n == 0 || (r == utf8.RuneError && n == 1) {
 			return s
 		}
-		return strings.ToUpper(s[:1]) + s[1:]
+		return string(unicode.ToUpper(r)) + s[n:]
 	})
 	fd.AddFilter("downcase", func(s, suffix string) string {
 		return strings.ToLower(s)
@@ -215,12 +218,12 @@ func AddStandardFilters(fd FilterDictionary) { //nolint: gocyclo
 		if start < 0 {
 			start = len(ss) + start
 		}
-		if start < 0 {
+		if start < 0 || start > len(ss) || n < 0 {
 			return ""
 		}
-		end := start + n
-		if end > len(ss) {
-			end = len(ss)
+		end := len(ss)
+		if n < len(ss)-start {
+			end = start + n
 		}
 		return string(ss[start:end])
 	})
@@ -242,19 +245,43 @@ func AddStandardFilters(fd FilterDictionary) { //nolint: gocyclo
 	fd.AddFilter("truncate", func(s string, length func(int) int, ellipsis func(string) string) string {
 		n := length(50)
 		el := ellipsis("...")
-		// runes aren't bytes; don't use slice
-		re := regexp.MustCompile(fmt.Sprintf(`^(.{%d})..{%d,}`, n-len(el), len(el)))
-		return re.ReplaceAllString(s, `$1`+el)
+		// count characters, not bytes, in both the string and the ellipsis
+		rs := []rune(s)
+		if len(rs) <= n {
+			return s
+		}
+		keep := n - utf8.RuneCountInString(el)
+		if keep < 0 {
+			keep = 0
+		}
+		return string(rs[:keep]) + el
 	})
 	fd.AddFilter("truncatewords", func(s string, length func(int) int, ellipsis func(string) string) string {
 		el := ellipsis("...")
 		n := length(15)
-		re := regexp.MustCompile(fmt.Sprintf(`^(?:\s*\S+){%d}`, n))
-		m := re.FindString(s)
-		if m == "" {
+		if n <= 0 {
 			return s
 		}
-		return m + el
+		// find the end of the n-th word; a string with at most n words is unchanged
+		words, inWord, end := 0, false, len(s)
+		for i, r := range s {
+			if unicode.IsSpace(r) {
+				if inWord && words == n {
+					end = i
+				}
+				inWord = false
+			} else if !inWord {
+				inWord = true
+				words++
+				if words > n {
+					break
+				}
+			}
+		}
+		if words <= n {
+			return s
+		}
+		return s[:end] + el
 	})
 	fd.AddFilter("upcase", func(s, suffix string) string {
 		return strings.ToUpper(s)
